@@ -26,7 +26,8 @@ import (
 // other files were loaded with it, nor on the order in which the loader came across them.
 type c03Case struct {
 	tcCase
-	Sibs map[string]string `json:"sibs"` // hex name -> hex AST json
+	Sibs  map[string]string `json:"sibs"`  // hex name -> hex AST json
+	Again bool              `json:"again"` // render every data value twice on the SAME engine (c03RunAgain)
 }
 
 // where the rendered template stood in the listings of one layout
@@ -259,6 +260,53 @@ func c03RunLayouts(c c03Case) (o c03Obs, err error) {
 	return o, nil
 }
 
+// c03RunAgain: production mode, full load; every data value gets a fresh engine and is rendered TWICE on it, one
+// render after the other (results d1, d1', d2, d2').  The second render executes the same compiled template - the
+// same call sites - again: whatever the first render left behind in the engine, in the parsed templates or at
+// package level is there when the second runs.  What a call shows must not depend on it.
+func c03RunAgain(c tcCase) (m tcMode, err error) {
+	dir, err := os.MkdirTemp("", "pvC03a")
+	if err != nil {
+		return m, err
+	}
+	defer os.RemoveAll(dir)
+	files := map[string]string{}
+	for p, a := range c.Files {
+		files["template/page/"+unhx(p)+".ast.json"] = unhx(a)
+	}
+	if err := writeTree(dir, files); err != nil {
+		return m, err
+	}
+	name := unhx(c.Render)
+	var pending []io.Reader
+	defer func() {
+		for i, rd := range pending {
+			if rd != nil && i < len(m.Res) && m.Res[i].Class == clsOK {
+				b, _ := io.ReadAll(rd)
+				m.Res[i].Out = hx(string(b))
+			}
+		}
+	}()
+	for _, raw := range c.Datas {
+		e := newEngine(dir, false, 0, nil)
+		m.Load, m.LoadMsg = safeLoad(e, "")
+		if m.Load != clsOK {
+			return m, nil
+		}
+		m.Code = hx(e.TemplateCode[name])
+		for rep := 0; rep < 2; rep++ {
+			data, err := buildData(raw)
+			if err != nil {
+				return m, err
+			}
+			res, rd := renderKeep(e, context.Background(), name, data)
+			m.Res = append(m.Res, res)
+			pending = append(pending, rd)
+		}
+	}
+	return m, nil
+}
+
 func init() {
 	runners["C03"] = func(in json.RawMessage) (interface{}, error) {
 		debug.SetMaxStack(64 << 20)
@@ -276,7 +324,13 @@ func init() {
 				out[i] = o
 				continue
 			}
-			p, err := runTCMode(c.tcCase, false)
+			var p tcMode
+			var err error
+			if c.Again {
+				p, err = c03RunAgain(c.tcCase)
+			} else {
+				p, err = runTCMode(c.tcCase, false)
+			}
 			if err != nil {
 				return nil, fmt.Errorf("case %d: %w", i, err)
 			}
